@@ -474,11 +474,8 @@ theorem routerSwapOps_tr {name : Asset → String} {w w' : World} {sender : Nat}
 theorem routerReceive_tr {name : Asset → String} {w w' : World} {from_ : Nat} {hk : Hook}
     (h : routerReceive name w from_ hk = .ok w') (hr : S w.router) (hp : ∀ z, (w.pair z).isSome → S z) :
     Tr S Mn (fun _ => False) w w' := by
-  cases hk with
-  | routerOps ops mn tt => exact routerSwapOps_tr h hr hp
-  | swap offer amt b ms tt => cases h
-  | withdraw => cases h
-  | garbage => cases h
+  obtain ⟨ops, mn, tt, rfl, _, _, h⟩ := routerReceive_ok h
+  exact routerSwapOps_tr h hr hp
 
 theorem routerExec_tr {name : Asset → String} {w w' : World} {sender : Nat} {funds : List (Nat × Nat)}
     {m : RouterMsg} (h : routerExec name w sender funds m = .ok w')
@@ -491,11 +488,17 @@ theorem routerExec_tr {name : Asset → String} {w w' : World} {sender : Nat} {f
   have hp0 : ∀ z, (w0.pair z).isSome → S z := fun z hz => hp z (s0.pair ▸ hz)
   refine (attach_tr hs h0).trans ?_
   cases m with
-  | swapOps ops mn tt => exact routerSwapOps_tr h hr0 hp0
-  | swapOp o a tt => exact routerHop_tr h hr0 (fun R _ hq => hp0 _ hq)
+  | swapOps ops mn tt =>
+    simp only [bind_ok_iff] at h
+    obtain ⟨_, _, h⟩ := h
+    exact routerSwapOps_tr h hr0 hp0
+  | swapOp o a tt =>
+    simp only [bind_ok_iff] at h
+    obtain ⟨_, _, h⟩ := h
+    exact routerHop_tr h hr0 (fun R _ hq => hp0 _ hq)
   | assertMin a prev mn rcv =>
     simp only [bind_ok_iff, pure_ok_iff] at h
-    obtain ⟨_, _, rfl⟩ := h
+    obtain ⟨_, _, _, _, rfl⟩ := h
     exact .refl _
   | receive from_ amount hk => exact routerReceive_tr h hr0 hp0
 
@@ -646,6 +649,8 @@ theorem facExec_tr {w w' : World} {s : Nat} {funds : List (Nat × Nat)} {m : Fac
   | updateConfig o tc pc =>
     have h : facUpdateConfig w0 s o tc pc = .ok w' := h
     unfold facUpdateConfig at h
+    split at h
+    · cases h
     split at h
     · cases h
     injection h with h
